@@ -11,10 +11,12 @@ EXPLAIN = "explain"
 RULE = ("cache.rate_limit(limit 1-4, period 1-3 s, ttl none/1-4 s), cache.slice_rate_limit(limit 1-4, period 1-3 s) and cache.circuit_breaker("
         "errors_rate 34/50/67, period 1-3 s, ttl 1-3 s, min_calls 1-3) through the facade, 3-24 calls at strictly increasing instants on a 1/16 s "
         "grid with bursts and gaps that straddle window boundaries (exactly period / ttl apart included), scripted success / listed failure / "
-        "unlisted failure, default error and custom action. non-trivial: at least one call was rejected / the breaker opened, and a later call ran again")
+        "unlisted failure, default error and custom action; plus concurrent bursts: 2-6 rounds of 1-4 callers started at one instant with every incr / expire / "
+        "slice_incr of the limiter and the function body gated and scheduled (judged as the sequence of their counting commands). non-trivial: at least one call was rejected / the breaker opened, and a later call ran again")
 TRUSTED_BASE = ["Coq 8.16.1 kernel + vm_compute", "hand-written model coq/Model/Rate.v over the TTL-map spec, tied by this differential run",
                 "float timestamps exact on the 1/16 s grid; errors_rate comparison modelled in integers (fails*100 >= rate*total)"]
-ASSUMPTIONS = ["strictly increasing call instants (two calls at one instant defeat the sliding window: recorded observation)",
+ASSUMPTIONS = ["the circuit breaker is exercised sequentially only (a call that passed the open check before the breaker opened still runs: not judged)",
+               "on the Redis backend calls sharing one clock reading collapse into one sorted-set member (the window script is covered by C19's reference, not by this check)",
                "half_open_ttl=None (the half-open branch is random)", "fewer than 9999 calls per breaker window"]
 EXHAUSTIVE = {"quick": False, "thorough": False}
 
@@ -48,10 +50,92 @@ def gen_cases(rng, tier):
             c["ttl"] = 16 * rng.choice([1, 2, 3])
         c["script"] = [rng.choice(["ok", "ok", "A", "A", "B"]) for _ in c["advs"]]
         cases.append(c)
+    # concurrent bursts: several callers started at the same instant, every backend command of the limiter gated and scheduled
+    for _ in range(n // 6):
+        kind = rng.choice(["rate_conc", "slide_conc"])
+        period = 16 * rng.choice([1, 2, 3])
+        ttl = rng.choice([0, 0, 16, 32, 48, 64, period])
+        rounds = [[a, rng.randint(1, 4)] for a in _times(rng, rng.randint(2, 6), period, ttl or period)]
+        cases.append({"kind": kind, "limit": rng.randint(1, 4), "period": period, "ttl": ttl, "action": rng.random() < 0.3,
+                      "rounds": rounds, "schedule": [rng.randrange(8) for _ in range(40)]})
     return cases
 
 
+def _run_conc(case):
+    from harness import sched
+
+    def main_factory(drv):
+        async def main():
+            from cashews import Cache
+            from cashews.exceptions import RateLimitError
+            cache = Cache()
+            mem = cache.setup("mem://?check_interval=0&size=100000")
+            await cache.init()
+            kind = case["kind"]
+            period, ttl = case["period"] * TICK, case["ttl"] * TICK
+            action = (lambda *a, **k: "rejected") if case["action"] else None
+            deco = cache.rate_limit(limit=case["limit"], period=period, ttl=ttl or None, action=action) if kind == "rate_conc" \
+                else cache.slice_rate_limit(limit=case["limit"], period=period, action=action)
+            decided = []           # callers in the order their counting command executed
+            ran = set()
+            for name in ("incr", "expire", "slice_incr"):
+                orig = getattr(mem, name)
+
+                def mk(orig, name):
+                    async def w(*a, **kw):
+                        tname = asyncio.current_task().get_name()
+                        if tname.startswith("W"):
+                            await drv.gate(name)
+                            if name in ("incr", "slice_incr"):
+                                decided.append([tname, round((vclock.Clock.now - vclock.BASE) / TICK)])
+                        return await orig(*a, **kw)
+                    return w
+                setattr(mem, name, mk(orig, name))
+
+            @deco
+            async def f():
+                tname = asyncio.current_task().get_name()
+                ran.add(tname)
+                await drv.gate("body")
+                return "done"
+            outcomes = {}
+
+            async def caller(name):
+                try:
+                    r = await f()
+                    outcomes[name] = "rejected" if r == "rejected" else "done"
+                except RateLimitError:
+                    outcomes[name] = "rejected"
+                except Exception as e:  # noqa
+                    outcomes[name] = "anomaly:" + type(e).__name__
+            n = 0
+            for adv, k in case["rounds"]:
+                await asyncio.sleep(adv * TICK)
+                ts = []
+                for _ in range(k):
+                    nm = f"W{n}"; n += 1
+                    ts.append(asyncio.get_running_loop().create_task(caller(nm), name=nm))
+                await asyncio.gather(*ts)
+            await cache.close()
+            steps = []
+            for nm, t in decided:
+                out = outcomes.get(nm, "anomaly:missing")
+                r = nm in ran
+                if (out == "rejected") == r or out.startswith("anomaly"):
+                    out = "anomaly:" + out
+                steps.append([t, "ok", r, out, None])
+            if len(decided) != n:
+                steps.append([0, "ok", False, "anomaly:calls without a counting command", None])
+            return {"steps": steps}
+        return main()
+    result, drv = sched.run(main_factory, case["schedule"])
+    return result if isinstance(result, dict) and "steps" in result else {"steps": [[0, "ok", False, "anomaly:stuck", None]]}
+
+
 def run_impl(case):
+    if case["kind"].endswith("_conc"):
+        return _run_conc(case)
+
     async def go():
         from cashews import Cache
         from cashews.exceptions import CircuitBreakerOpen, RateLimitError
@@ -106,7 +190,7 @@ def run_impl(case):
 
 
 def to_coq(case, obs):
-    kind = case["kind"]
+    kind = case["kind"].replace("_conc", "")      # a concurrent burst is judged as the sequence of its counting commands
     bad = any(str(s[3]).startswith("anomaly") for s in obs["steps"])
     if kind in ("rate", "slide"):
         h = [Z(s[0]) for s in obs["steps"]]
@@ -132,6 +216,14 @@ def classify(case, obs):
 
 
 def shrink(case):
+    if case["kind"].endswith("_conc"):
+        r = case["rounds"]
+        for i in range(len(r)):
+            if len(r) > 1:
+                c = dict(case); c["rounds"] = r[:i] + r[i + 1:]; yield c
+            if r[i][1] > 1:
+                c = dict(case); c["rounds"] = r[:i] + [[r[i][0], r[i][1] - 1]] + r[i + 1:]; yield c
+        return
     a = case["advs"]
     for i in range(len(a)):
         c = dict(case); c["advs"] = a[:i] + a[i + 1:]; c["script"] = case["script"][:i] + case["script"][i + 1:]
